@@ -4,7 +4,11 @@ import json, os, glob
 base = os.path.join(os.path.dirname(os.path.dirname(os.path.abspath(__file__))), 'seeded')
 print('| id | property | needs to manifest | checks run (exit) | caught by |')
 print('|----|----------|-------------------|-------------------|-----------|')
-for f in sorted(glob.glob(os.path.join(base, '*', 'meta.json'))):
+def _key(f):
+    d = os.path.basename(os.path.dirname(f))
+    a, b = d.split('-')
+    return (a, int(b))
+for f in sorted(glob.glob(os.path.join(base, '*', 'meta.json')), key=_key):
     m = json.load(open(f))
     runs = ', '.join('%s:%s' % (c, x['exit']) for c, x in sorted(m['checks_run'].items()))
     print('| %s | %s | %s | %s | %s |' % (m['id'], m['property'], m['needs_to_manifest'].replace('|', '/'), runs, ', '.join(m['caught_by']) or '**none**'))
